@@ -248,7 +248,7 @@ class World:
         _procs.WORLD = self
         leaked = 0
         mon = None
-        if self.sched.preempt_plan:
+        if self.sched.preempt_plan or self.sched.preempt_targets:
             from . import trace
             mon = trace.setup(self.mods)
             mon.activate(self.sched)
